@@ -2,8 +2,8 @@
 # usage: seed_pipeline.sh <Cxx> <round>  — confirm both agent-produced changes of a property, then run the property's own check against each
 # (and, if that is silent, the related checks); one summary line per (seed, check) in /tmp/pipeline_<Cxx>_r<round>.log
 ID=$1; R=$2
-declare -A REL=( [C01]="C15 C09" [C02]="C09 C11 C05" [C03]="C11 C07" [C04]="C09 C02" [C05]="C02 C01" [C06]="C10 C07" [C07]="C16 C11 C18 C06" [C08]="C13 C11 C10" [C09]="C04 C18 C02"
- [C10]="C13 C06" [C11]="C07 C13" [C12]="C16 C07 C06" [C13]="C10 C07" [C14]="C07" [C15]="C11 C01" [C16]="C07 C12" [C17]="C18" [C18]="C17 C09" [C19]="" [C20]="C07" )
+declare -A REL=( [C01]="C04 C09 C15" [C02]="C09 C11 C05" [C03]="C11 C07" [C04]="C09 C02 C10 C11" [C05]="C02 C01" [C06]="C10 C07" [C07]="C16 C11 C18 C06" [C08]="C10 C11 C13 C15" [C09]="C04 C18 C02"
+ [C10]="C13 C06" [C11]="C07 C13" [C12]="C16 C07 C06" [C13]="C10 C07" [C14]="C07" [C15]="C11 C01" [C16]="C07 C12" [C17]="C18" [C18]="C04 C09 C17" [C19]="" [C20]="C07" )
 LOG=/tmp/pipeline_${ID}_r$R.log; : > $LOG
 for mk in m1 m2; do
   /verif/tools/confirm_seed.sh $ID $mk $R >> $LOG 2>&1
